@@ -623,7 +623,7 @@ CONTRACTS["scale.TimeScale.ticks"] = {
     # thorough tier only (138 paths per count, ~40 s each): the default count and 5
     "thorough_tier_only": True, "quick_cases": [0, 2], "thorough_cases": [0, 2],
     "requires": ["in_range_us(t0)", "in_range_us(t1)", "us(t0) != us(t1)", "%s + 1000 < %d" % (_THI, 84371 * 86400 * 10 ** 6)],
-    "modifies": ["list.len.dt", "list.elems.dt"], "allocates": ["list"],
+    "modifies": ["list.len.dt", "list.elems.dt", "list.$pos.dt"], "allocates": ["list"],
     "callee_contracts": RANGE_SUMMARY,
     "ensures": [
         ("inside_the_domain", "forall(lambda k: implies(0 <= k < len(result), %s <= us(result[k]) <= %s))" % (_TLO, _THI)),
